@@ -68,7 +68,7 @@ type c14Round struct {
 	source  map[core.TractID]int                 // replica PackTracts copied the tract from
 	hinted  bool
 	plan    [3]int // planned pack fault of this round: piece, position (0 first 1 middle 2 last), mode (0 one 1 several 2 all); piece < 0 = none
-	base    int64 // first chunk id AllocateRSChunkIDs returned to this round (0 = none yet)
+	base    int64  // first chunk id AllocateRSChunkIDs returned to this round (0 = none yet)
 }
 
 type c14Fin struct {
@@ -1289,6 +1289,9 @@ func (d *C14) Quiesce() bool {
 			}
 			d.report("harness-deadlock", "activities blocked on each other with nothing deliverable", map[string]interface{}{"pending": fmt.Sprint(d.Cl.S.Pending())})
 			return false
+		}
+		if len(d.PackPlan) > 0 {
+			d.packFail(C14Weights{}, pick) // the round's planned pack fault is part of the plan, not of the random faults
 		}
 		d.Step(pick, ModeDeliver, nil)
 	}
